@@ -211,7 +211,7 @@ func (e *endpoint) dispatch() (bool, *tcpip.Error) {
 	//如果比头部长度还小，直接丢弃
 	if n <= e.hdrSize {
 		log.Printf("@链路层 fdbased: read %d bytes < header bytest %d,比头部长度还小直接丢弃", n, e.hdrSize)
-		return false, nil
+		return true, nil
 	}
 	var (
 		p                             tcpip.NetworkProtocolNumber
